@@ -748,11 +748,39 @@ def _inline_helpers(tree, modname, ref, log):
     new = [(q, f, cls, body) for q, f, cls, body in funcs
            if q not in known and '.' not in q.replace(
                (cls.name + '.') if cls else '', '', 1)]
+    # nested helper functions (closures) of a recorded function: `def h(..)`
+    # directly in the body of the enclosing function, no decorators, not
+    # recursive.  A closure reads the enclosing function's variables when it
+    # is called, which is exactly when the inlined body reads them; it cannot
+    # re-bind them (nonlocal is refused by _simple_helper) and its own locals
+    # get fresh names.
+    enclosing = {}
+    byq = {q: f for q, f, cls, body in funcs}
+    for q, f, cls, body in funcs:
+        if q in known or cls is not None or '.' not in q:
+            continue
+        par = byq.get(q.rsplit('.', 1)[0])
+        if par is None or q.rsplit('.', 1)[0] not in known or \
+                not any(f is s_ for s_ in par.body) or body is not par.body \
+                or f.decorator_list or f.name in _names(f):
+            continue
+        # the name is bound once (by the def) in the enclosing function
+        if any(isinstance(x, ast.Name) and x.id == f.name and not isinstance(
+                x.ctx, ast.Load) for x in ast.walk(par)) or \
+                f.name in [a.arg for a in ast.walk(par.args)
+                           if isinstance(a, ast.arg)] or \
+                sum(1 for x in ast.walk(par) if isinstance(
+                    x, (ast.FunctionDef, ast.AsyncFunctionDef, ast.ClassDef))
+                    and x.name == f.name) != 1:
+            continue
+        enclosing[id(f)] = par
+        new.append((q, f, cls, body))
     counter = [0]
     for q, hf, cls, container in new:
         hb = _simple_helper(hf)
         if hb is None:
             continue
+        encl = enclosing.get(id(hf))
         is_method = cls is not None
         static = any(isinstance(d, ast.Name) and d.id in (
             'staticmethod', 'classmethod') for d in hf.decorator_list)
@@ -769,12 +797,16 @@ def _inline_helpers(tree, modname, ref, log):
         used = 0
         failed = False
         for q2, f2, cls2, _b in funcs:
-            if f2 is hf:
+            if f2 is hf or (encl is not None and f2 is not encl):
                 continue
             for blk in _blocks(f2):
                 i = 0
                 while i < len(blk):
                     st = blk[i]
+                    if st is hf or (encl is not None and
+                                    st.lineno <= hf.lineno):
+                        i += 1          # a closure is called after its def
+                        continue
                     calls = [c for c in ast.walk(st) if isinstance(
                         c, ast.Call) and _is_call_to(c, hf.name, is_method,
                                                      cls)]
@@ -785,6 +817,16 @@ def _inline_helpers(tree, modname, ref, log):
                         i += 1
                         continue
                     c = calls[0]
+                    # a call inside a lambda / comprehension runs later or
+                    # repeatedly: it cannot be replaced by statements in
+                    # front of the host statement
+                    if any(isinstance(x, (ast.Lambda, ast.ListComp,
+                                          ast.SetComp, ast.DictComp,
+                                          ast.GeneratorExp)) and any(
+                               y is c for y in ast.walk(x))
+                           for x in ast.walk(st)):
+                        failed = True
+                        break
                     args = list(c.args)
                     recv = None
                     if is_method and isinstance(c.func, ast.Attribute):
@@ -954,6 +996,19 @@ def _inline_helpers(tree, modname, ref, log):
             if failed:
                 break
         if used and not failed:
+            if encl is not None:
+                # the def is dropped only when no reference to the closure
+                # is left (every use was a call that has been inlined)
+                left = [x for x in ast.walk(encl) if isinstance(x, ast.Name)
+                        and x.id == hf.name]
+                if not left:
+                    container.remove(hf)
+                    log.append('inlined nested helper %s at %d call site(s)'
+                               % (q, used))
+                else:
+                    log.append('inlined nested helper %s at %d call site(s); '
+                               'definition kept' % (q, used))
+                continue
             if hf in container:
                 container.remove(hf)
             log.append('inlined helper %s at %d call site(s)' % (q, used))
@@ -1490,6 +1545,45 @@ def _guard_continues(body):
             return None
         out.append(st)
     return out
+
+
+def _inline_literal_tuples(fn, rf, log, q):
+    """`T = (a, b, c)` (a tuple display of constants / pure look-ups, possibly
+    pairs of them) for a local T the reference does not know -> the display
+    at its uses.  A tuple is immutable, so its identity is unobservable and
+    the display may be repeated; `_inline_temp` establishes that no operand is
+    re-bound between the definition and the last use and that every use
+    follows the definition in its block.  Runs before the literal-loop
+    unroller, which then sees `for x in (a, b, c)`."""
+    ref_locs = set(rf.get('locals', []))
+    for _ in range(8):
+        params, locs = local_order(fn)
+        done = False
+        for c_ in locs:
+            if c_ in ref_locs:
+                continue
+            h = _single_assign(fn, c_)
+            if h is None or not isinstance(h[2].value, ast.Tuple) or \
+                    not h[2].value.elts or \
+                    _literal_items(h[2].value) is None:
+                continue
+            # no comprehension / lambda may bind an operand of the display
+            ops = _names(h[2].value)
+            bound = set()
+            for n in _own_nodes(fn):
+                if isinstance(n, ast.comprehension):
+                    bound |= _names(n.target)
+                elif isinstance(n, ast.Lambda):
+                    bound |= {a.arg for a in n.args.args}
+            if ops & bound:
+                continue
+            if _inline_temp(fn, c_):
+                log.append('%s: literal tuple %s inlined' % (q, c_))
+                done = True
+                break
+        if not done:
+            break
+    ast.fix_missing_locations(fn)
 
 
 def _unroll_literal_loops(fn, rf, log, q):
@@ -3071,6 +3165,7 @@ def canonicalise(tree, modname, text=None):
         _restore_bool_returns(fn, rf, log, q)
         _dictcomps_to_loops(fn, rf, log, q)
         _loops_to_comprehensions(fn, rf, log, q)
+        _inline_literal_tuples(fn, rf, log, q)
         _unroll_literal_loops(fn, rf, log, q)
         _const_attr_access(fn, log, q)
         _conjunction_ifs(fn, rf, log, q)
@@ -3088,7 +3183,8 @@ def canonicalise(tree, modname, text=None):
         _restore_bool_returns(fn, rf, log, q)
         _conjunction_ifs(fn, rf, log, q)
         _orient_ifs(fn, rf, log, q)
-        if len(log) > n0 or any(l.startswith('inlined helper')
+        if len(log) > n0 or any(l.startswith(('inlined helper',
+                                              'inlined nested helper'))
                                 for l in log):
             ast.fix_missing_locations(fn)
             _renumber(fn)
